@@ -94,8 +94,10 @@ elif w.get("op") == "units":
             if not np.allclose(r.coords, want, rtol=1e-4, atol=1e-9):
                 bad.append(f"Molecule.{entry}_{fmt}: file declared in {u}: {m.coords[0][0]} {u} read as {r.coords[0][0]:.6g} Angstrom, expected {want[0][0]:.6g}")
 else:
-    for cls in (ml.Molecule, ml.CartesianGeometry):
+    for cls, nm in ((ml.Molecule, None), (ml.CartesianGeometry, None), (ml.Molecule, ""), (ml.CartesianGeometry, " ")):
         src = cls(m) if cls is ml.Molecule else ml.CartesianGeometry(m)
+        if nm is not None:
+            src.name = nm                   # an empty / blank name gives an empty comment line: still the second line of the frame
         try:
             r = cls.loads_xyz(src.dumps_xyz())
         except BaseException as ex:
